@@ -257,7 +257,22 @@ pub fn run_hair_px(l: &[i128]) -> Vec<i128> {
             }
         }
     }
-    vec![touched, far, gaps, first[0], first[1], first[2], dep, edge_bad, dep2]
+    // C04: touched pixels outside the bounding box of the (transformed) path grown by the width, the cap extension and
+    // one pixel of anti-aliasing bleed
+    let bb = tp.bounds();
+    let grow = (width * 0.5).max(0.5) as f64 + cap_ext + 1.0 + 0.5;
+    let mut stray = 0i128;
+    for y in 0..h {
+        for x in 0..w {
+            if alpha[(y * w + x) as usize] != 0 {
+                let (cx, cy) = (x as f64 + 0.5, y as f64 + 0.5);
+                if cx < bb.left() as f64 - grow || cx > bb.right() as f64 + grow || cy < bb.top() as f64 - grow || cy > bb.bottom() as f64 + grow {
+                    stray += 1;
+                }
+            }
+        }
+    }
+    vec![touched, far, gaps, first[0], first[1], first[2], dep, edge_bad, dep2, stray]
 }
 
 /// args: x0 y0 x1 y1 l t r b (bit patterns) -> -1 | -2 | the clipped end points (line_clipper::intersect)
